@@ -92,7 +92,7 @@ func (smm *serverMulticastWriterMedia) writePacketRTCP(pkt rtcp.Packet) error {
 
 	maxPlainPacketSize := smm.maxPacketSize
 	if smm.srtpOutCtx != nil {
-		maxPlainPacketSize -= srtcpOverhead
+		maxPlainPacketSize -= srtcpOverhead + len(smm.srtpOutCtx.mki)
 	}
 
 	if len(plain) > maxPlainPacketSize {
